@@ -13,7 +13,7 @@ var (
 	NaN2        = math.Float64frombits(0x7ff8000000000001 | 0xdead<<8) // NaN with another payload
 	FloatDomain = []float64{math.NaN(), NaN2, 0, math.Copysign(0, -1), 0.5, -0.5, 1, -1, 2, 2.5, -2.5, 3,
 		math.Inf(1), math.Inf(-1), 5e-324, math.MaxFloat64, 1e21, 1e22, 0.1, 100}
-	StrDomain = []string{"", "a", "b", "ab", "A", "B", "aB", "abc", "ä", "\x00", "a b", "b%", "Ab", "c", "ba"}
+	StrDomain = []string{"", "a", "b", "ab", "A", "B", "aB", "abc", "ä", "\x00", "a b", "b%", "Ab", "c", "ba", "ıx", "ɐb", "aſ"}
 )
 
 // RowsSmall is the default row count distribution: size classes rather than uniform.
